@@ -462,7 +462,7 @@ func writeReplay(p *propSpec, seed uint64, r rt.Result, v rt.Violation, note str
 		rp.Replay, rp.Plan, rp.Sched = true, r.PlanTape, r.SchedTape
 	}
 	rp.KeepLog = 4000
-	dir := filepath.Join(verifDir, "replays")
+	dir := filepath.Join(outDir, "replays")
 	_ = os.MkdirAll(dir, 0o755)
 	pth := ""
 	for n := 0; ; n++ {
@@ -574,7 +574,8 @@ func writeEvidence(e *env, p *propSpec, tier string, a *agg, nViol int, runSecs 
 		"wall_s":     wall,
 		"violations": nViol,
 	}
-	_ = writeJSON(filepath.Join(verifDir, "evidence", p.ID+".json"), ev)
+	_ = os.MkdirAll(filepath.Join(outDir, "evidence"), 0o755)
+	_ = writeJSON(filepath.Join(outDir, "evidence", p.ID+".json"), ev)
 }
 
 // ---------------------------------------------------------------- minimiser
